@@ -679,7 +679,9 @@ def evaluate_payload_template(input, context, template):
 
         if v_is_path_or_intrinsic:
             if v == "$":  # It's a path representing the root node
-                v = clone(input)  # clone to avoid potential circular reference
+                # Copy (to avoid a potential circular reference). The input is data not a
+                # template, so any members of it ending in ".$" must not be evaluated.
+                v = copy.deepcopy(input)
             elif v.startswith("$"):  # It's a path
                 v = apply_path(input, context, v)
             else:  # It's an Intrinsic Function
